@@ -27,9 +27,9 @@ pub fn check_case(h: &History) -> CaseResult {
 }
 
 pub fn run(ctx: &Ctx, rep: &mut Report) {
-    let cases = ctx.share(ctx.tier.pick(60_000, 1_200_000));
+    let cases = ctx.share(ctx.tier.pick(90_000, 1_200_000));
     engine::drive(ctx, rep, "histories", iovec_sm::history(Mix::General, 60), cases, check_case);
-    let cases = ctx.share(ctx.tier.pick(6_000, 100_000));
+    let cases = ctx.share(ctx.tier.pick(9_000, 100_000));
     engine::drive(ctx, rep, "long-histories", iovec_sm::history(Mix::General, 200), cases, check_case);
 }
 
